@@ -132,7 +132,10 @@ def evaluate(case):
         nm = lib(B + ['ddf.geometry'], lambda: ddf.geometry.name)
         if nm != active:
             fails.append((B + ['active-geometry'], f'{nm} expected {active}'))
-        parts = [p for p in lib(B + ['partitions'], lambda: [ddf.partitions[i].compute() for i in range(ddf.npartitions)])]
+        # partitions as one computation of the whole collection (ddf.npartitions can exceed the materialised count after
+        # pack_partitions: open finding D20 of C09; ddf.partitions[i] would then raise in the harness itself)
+        import dask
+        parts = list(lib(B + ['partitions'], lambda: dask.compute(*ddf.to_delayed())))
         whole = lib(B + ['compute'], ddf.compute)
         if _ids(whole) != _ids(ref):
             fails.append((B + ['compute', 'rows'], f'{_ids(whole)} vs pandas {_ids(ref)}'))
@@ -212,6 +215,17 @@ def evaluate(case):
     finally:
         if tmp:
             shutil.rmtree(tmp, ignore_errors=True)
+
+
+def _filter_after_pack(case):
+    """D25: a row filter applied to a packed frame. dask-expr pushes the filter below the set_index shuffle, so partition
+    contents differ between computations of the same collection (pure Dask reproduces it); spatialpandas' Dask cx /
+    cx_partitions / partition bounds then disagree with each other"""
+    prov = case.get('provenance', [])
+    return 'pack' in prov and 'filter' in prov[prov.index('pack'):]
+
+
+PREDICATES = {'filter_after_pack': _filter_after_pack}
 
 
 def KINDTAG(active, kind2):
